@@ -164,6 +164,8 @@ func c09Content(res *explore.Result, content string, pi int, verbose bool) {
 				want = pb(parsley.Pos(base+cur+k), rest[:k])
 			}
 			check("ReadRegexp", "`a_|_a`", func() string { return pb(r.ReadRegexp(pos, "a_|_a")) }, want)
+			// an expression that brings its own ^ is anchored at the cursor as a whole all the same
+			check("ReadRegexp", "`^a_|_a`", func() string { return pb(r.ReadRegexp(pos, "^a_|_a")) }, want)
 			k, sub := reAOptUnderscore(rest)
 			ps := func(p parsley.Pos, m [][]byte) string {
 				if m == nil {
